@@ -74,68 +74,129 @@ def sign_of(t, env):
     return None
 
 
-def explore(fn, env, max_paths=500):
-    """all (path conditions decided under env) outcomes: list of return terms reached.
-    Unknown boolean conditions fork; `?` error edges are followed too."""
+def _order(a, b):
+    """-1 / 0 / 1 / None(undetermined) / 'nan' for abstract signs"""
+    if a == 'nan' or b == 'nan':
+        return 'nan'
+    rank = {'neg': -1, 'zero': 0, 'pos': 1}
+    x, y = rank[a], rank[b]
+    if x != y:
+        return -1 if x < y else 1
+    if a == 'zero':
+        return 0
+    return None
+
+
+def resolve_phis(t, defs_env):
+    """replace ('phi', l, ..) / ('var', l, ..) leaves by the definition that reached the end of the path"""
+    if not isinstance(t, tuple) or not t:
+        return t
+    if t[0] in ('phi', 'var') and t[1] in defs_env:
+        return resolve_phis(defs_env[t[1]], {k: v for k, v in defs_env.items() if k != t[1]})
+    out = []
+    for x in t:
+        if isinstance(x, tuple):
+            out.append(resolve_phis(x, defs_env))
+        elif isinstance(x, list):
+            out.append([resolve_phis(y, defs_env) if isinstance(y, tuple) and y and isinstance(y[0], str) else
+                        ((y[0], resolve_phis(y[1], defs_env)) if isinstance(y, tuple) and len(y) == 2 and isinstance(y[1], tuple) else y) for y in x])
+        else:
+            out.append(x)
+    return tuple(out)
+
+
+def explore(fn, env, max_paths=800):
+    """Path-by-path evaluation under the abstract environment `env`:
+         env[<text of a float term>] = sign        env['disc:<param name>'] = discriminant value of an enum parameter
+    Branches decided by the environment are followed on their live edge only (float comparisons with constants,
+    is_nan, partial_cmp + Ordering matches, matches on an enum parameter); anything else forks.
+    Returns ([(kind, return term with the path's own definitions substituted)], [undecided condition texts])."""
     outs = []
     forks = []
     count = [0]
+    multi = {l for l, ds in fn.defs().items() if len([d for d in ds if not d[-1]]) >= 2}
 
-    def go(b, seen):
+    def decide(b, s):
+        e = paths.edge_cond(fn, b, s)
+        if e is None:
+            return None
+        if e[0] == 'bool':
+            c = strip(e[1])
+            if c[0] == 'binop' and c[1] in ('Lt', 'Le', 'Gt', 'Ge', 'Eq', 'Ne'):
+                a, bb = sign_of(c[2], env), sign_of(c[3], env)
+                if a is not None and bb is not None:
+                    tr = cmp_signs(c[1], a, bb)
+                    if tr is not None:
+                        return tr == e[2]
+            if c[0] == 'call' and c[1].endswith('f32>::is_nan') and c[2]:
+                a = sign_of(c[2][0], env)
+                if a is not None:
+                    return (a == 'nan') == e[2]
+            forks.append(show(c)[:80])
+            return None
+        if e[0] == 'disc' and e[1][0] == 'discr':
+            x = strip(e[1][1])
+            vals, other = e[2], e[3]
+            sw = paths.switch_at(fn, b)
+            listed = [int(v) for v, t in sw['targets']]
+
+            def takes(v):
+                return (v in vals) or (other and v not in listed)
+            if x[0] == 'arg' and ('disc:%s' % x[2]) in env:
+                return takes(env['disc:%s' % x[2]])
+            if x[0] == 'call' and x[1].endswith('PartialOrd::partial_cmp') and len(x[2]) == 2:
+                a, bb = sign_of(x[2][0], env), sign_of(x[2][1], env)
+                if a is not None and bb is not None:
+                    o = _order(a, bb)
+                    if o == 'nan':
+                        return takes(0)
+                    return takes(1)
+            if x[0] == 'field' and strip(x[1])[0] == 'downcast' and strip(strip(x[1])[1])[0] == 'call' and strip(strip(x[1])[1])[1].endswith('PartialOrd::partial_cmp'):
+                pc = strip(strip(x[1])[1])
+                a, bb = sign_of(pc[2][0], env), sign_of(pc[2][1], env)
+                if a is not None and bb is not None:
+                    o = _order(a, bb)
+                    if o in (-1, 0, 1):
+                        return takes({-1: 255, 0: 0, 1: 1}[o])
+                    if o == 'nan':
+                        return False
+            return None
+        return None
+
+    def go(b, seen, defs_env):
         count[0] += 1
         if count[0] > max_paths or b in seen:
             return
         seen = seen | {b}
+        d2 = defs_env
+        for l, t in fn.defs_in_block(b):
+            if l in multi:
+                if d2 is defs_env:
+                    d2 = dict(defs_env)
+                d2[l] = t
         blk = fn.blocks[b]
         t = blk['term']
         if t['k'] == 'return':
-            for rb, k, rt in paths.ret_assigns(fn):
-                if rb in seen:
-                    pass
-            # the last assignment to _0 on this path
-            last = None
-            for rb, k, rt in paths.ret_assigns(fn):
-                if rb in seen:
-                    last = (k, rt) if last is None or True else last
-            cands = [(rb, k, rt) for rb, k, rt in paths.ret_assigns(fn) if rb in seen]
-            if cands:
-                outs.append(cands[-1][1:])
+            val = fn.local_term_in_env(0, d2)
+            kind = 'other'
+            if val[0] == 'call':
+                kind = 'call'
+            outs.append((kind, resolve_phis(val, d2)))
             return
         if t['k'] == 'switch':
             ss = fn.succ(b)
-            decided = None
-            for s in ss:
-                e = paths.edge_cond(fn, b, s)
-                if e and e[0] == 'bool':
-                    c = strip(e[1])
-                    if c[0] == 'binop' and c[1] in ('Lt', 'Le', 'Gt', 'Ge', 'Eq', 'Ne'):
-                        a, bb = sign_of(c[2], env), sign_of(c[3], env)
-                        if a is not None and bb is not None:
-                            tr = cmp_signs(c[1], a, bb)
-                            if tr is not None:
-                                if tr == e[2]:
-                                    decided = s
-                                continue
-                    if c[0] == 'call' and c[1].endswith('f32>::is_nan') and c[2]:
-                        a = sign_of(c[2][0], env)
-                        if a is not None:
-                            if (a == 'nan') == e[2]:
-                                decided = s
-                            continue
-                    forks.append(show(c)[:80])
-                    decided = 'fork'
-                    break
-                else:
-                    decided = 'fork'
-                    break
-            if decided == 'fork' or decided is None:
-                for s in ss:
-                    go(s, seen)
+            dec = {s: decide(b, s) for s in ss}
+            if any(v is True for v in dec.values()):
+                for s, v in dec.items():
+                    if v is True:
+                        go(s, seen, d2)
             else:
-                go(decided, seen)
+                for s, v in dec.items():
+                    if v is not False:
+                        go(s, seen, d2)
             return
         for s in fn.succ(b):
-            go(s, seen)
+            go(s, seen, d2)
 
-    go(0, frozenset())
+    go(0, frozenset(), {})
     return outs, forks
